@@ -61,7 +61,7 @@ TraceNext ==
 
 TraceSpec == TraceInit /\ [][TraceNext]_vars
 
-NoteInv(ok, n, t) == ok \/ Note(t, n)
+NoteInv(ok, n, t) == IF ok THEN TRUE ELSE Note(t, n)
 TraceInvs ==
   /\ NoteInv(C02_IterBound, "inv.C02_IterBound", "P:C02")
   /\ NoteInv(C02_IterLimitIff, "inv.C02_IterLimitIff", "P:C02")
